@@ -114,12 +114,12 @@ func (c *compiler) write(bb *strings.Builder, i interface{}) {
 	case template.HTML:
 		bb.Write(unsafeGetBytes(string(t)))
 	case HTMLer:
-		bb.Write(unsafeGetBytes(string(t.HTML())))
+		bb.Write(unsafeGetBytes(textOf(func() string { return string(t.HTML()) })))
 	case uint, uint8, uint16, uint32, uint64, int, int8, int16, int32, int64, float32, float64:
 		bb.Write(unsafeGetBytes(fmt.Sprint(t)))
 	case fmt.Stringer:
 		// what String() returns is a string like any other, not trusted HTML
-		bb.Write(unsafeGetBytes(template.HTMLEscaper(t.String())))
+		bb.Write(unsafeGetBytes(template.HTMLEscaper(textOf(t.String))))
 	case []string:
 		for _, ii := range t {
 			c.write(bb, ii)
@@ -133,6 +133,19 @@ func (c *compiler) write(bb *strings.Builder, i interface{}) {
 			c.write(bb, ii)
 		}
 	}
+}
+
+// textOf calls a value's own String or HTML method. Such a method may be
+// promoted from an embedded interface or pointer that is nil; like package
+// fmt, printing the value then does not bring the program down: the value
+// prints nothing.
+func textOf(method func() string) (s string) {
+	defer func() {
+		if recover() != nil {
+			s = ""
+		}
+	}()
+	return method()
 }
 
 func (c *compiler) evalExpression(node ast.Expression) (interface{}, error) {
